@@ -313,7 +313,7 @@ def dist(
       - J. Richter-Gebert: Perspectives on Projective Geometry, Section 18.8
 
     """
-    if p == q:
+    if isinstance(p, PointTensor) == isinstance(q, PointTensor) and p == q:
         return np.zeros(p.shape[: p.free_indices])
 
     if isinstance(p, PointTensor) and isinstance(q, PointTensor):
